@@ -203,6 +203,66 @@ enum Act {
     Fail(u32),
     /// `[export] t1, t2, … = r1, r2, …`
     Pat(bool, Vec<Target>, Vec<Rhs>),
+    /// `k op= r`
+    Cmp(Name, COp, Rhs),
+    /// `for zi in 0..n` / `  k op= r`
+    Loop(u32, Name, COp, Rhs),
+    /// `k = v` nested in `if true` (0), `if false` (1), `match 1` / `1 then` (2)
+    Cond(u32, Name, i64),
+}
+
+#[derive(Clone, Copy, Debug, Serialize, Deserialize, PartialEq)]
+enum COp {
+    Add,
+    Sub,
+    Mul,
+    Rem,
+    Pow,
+}
+
+impl COp {
+    fn atom(&self) -> &'static str {
+        match self {
+            COp::Add => "add",
+            COp::Sub => "sub",
+            COp::Mul => "mul",
+            COp::Rem => "rem",
+            COp::Pow => "pow",
+        }
+    }
+    fn src(&self) -> &'static str {
+        match self {
+            COp::Add => "+=",
+            COp::Sub => "-=",
+            COp::Mul => "*=",
+            COp::Rem => "%=",
+            COp::Pow => "^=",
+        }
+    }
+    /// i64 semantics (wrapping; `%` truncates)
+    fn apply(&self, a: i64, b: i64) -> i64 {
+        match self {
+            COp::Add => a.wrapping_add(b),
+            COp::Sub => a.wrapping_sub(b),
+            COp::Mul => a.wrapping_mul(b),
+            COp::Rem => if b == 0 { a } else { a.wrapping_rem(b) },
+            COp::Pow => if b < 0 { a } else { a.wrapping_pow(b as u32) },
+        }
+    }
+}
+
+fn rhs_sexp(r: &Rhs) -> String {
+    match r {
+        Rhs::Lit(n) => format!("(lit {})", n),
+        Rhs::Ref(k) => format!("(ref {})", k),
+    }
+}
+
+fn rhs_src(r: &Rhs) -> String {
+    match r {
+        Rhs::Lit(n) => n.to_string(),
+        Rhs::Ref(k) => name_str(*k),
+    }
 }
 
 #[derive(Clone, Debug, Serialize, Deserialize)]
@@ -261,6 +321,16 @@ struct Flags {
 fn name_str(n: Name) -> String {
     if n == 99 {
         "string".into()
+    } else if n == 89 {
+        // the loop variable of Act::Loop
+        "zi".into()
+    } else if n == 90 {
+        // 90..92: names of prelude functions (always in the model's prelude)
+        "size".into()
+    } else if n == 91 {
+        "type".into()
+    } else if n == 92 {
+        "copy".into()
     } else if n >= 200 {
         format!("m{}.v{}", (n - 200) / 10, (n - 200) % 10)
     } else if n < 50 {
@@ -296,6 +366,9 @@ fn act_sexp(a: &Act) -> String {
         Act::FromAll(m) => format!("(fromall {})", m.sexp()),
         Act::Try(m, mk) => format!("(try {} {})", Ref { str_: true, ..m.clone() }.sexp(), mk),
         Act::Fail(mk) => format!("(fail {})", mk),
+        Act::Cmp(k, op, r) => format!("(cmp {} {} {})", k, op.atom(), rhs_sexp(r)),
+        Act::Loop(n, k, op, r) => format!("(loop {} {} {} {})", n, k, op.atom(), rhs_sexp(r)),
+        Act::Cond(f, k, v) => format!("(cond {} {} {})", f, k, v),
         Act::Pat(e, ts, rs) => format!(
             "(pat {} ({}) ({}))",
             *e as u8,
@@ -357,7 +430,7 @@ fn request(sc: &Scenario) -> String {
         }
     }
     s.push(')');
-    for p in &sc.prelude {
+    for p in sc.prelude.iter().chain([90u32, 91, 92].iter()) {
         s.push_str(&format!(" {}", p));
     }
     s.push_str(") (fs");
@@ -419,6 +492,7 @@ fn act_src(a: &Act, ind: &str, out: &mut Vec<String>) {
                 ("\"' not found\"", "idnf"),
                 ("'import id or string'", "type"),
                 ("'callable function'", "call"),
+                ("'unable to perform operation'", "arith"),
                 ("'Key/Value pair to export'", "exportentry"),
                 ("'xpected'", "compile"),
             ] {
@@ -430,6 +504,26 @@ fn act_src(a: &Act, ind: &str, out: &mut Vec<String>) {
             out.push(format!("{ind}    print 'C{mk}:other'"));
         }
         Act::Fail(mk) => out.push(format!("{ind}throw 'boom{mk}'")),
+        Act::Cmp(k, op, r) => out.push(format!("{ind}{} {} {}", name_str(*k), op.src(), rhs_src(r))),
+        Act::Loop(n, k, op, r) => {
+            out.push(format!("{ind}for zi in 0..{}", n));
+            out.push(format!("{ind}  {} {} {}", name_str(*k), op.src(), rhs_src(r)));
+        }
+        Act::Cond(f, k, v) => match f {
+            0 => {
+                out.push(format!("{ind}if true"));
+                out.push(format!("{ind}  {} = {}", name_str(*k), v));
+            }
+            1 => {
+                out.push(format!("{ind}if false"));
+                out.push(format!("{ind}  {} = {}", name_str(*k), v));
+            }
+            _ => {
+                out.push(format!("{ind}match 1"));
+                out.push(format!("{ind}  1 then"));
+                out.push(format!("{ind}    {} = {}", name_str(*k), v));
+            }
+        },
         Act::Pat(e, ts, rs) => {
             let tsrc: Vec<String> = ts
                 .iter()
@@ -538,6 +632,8 @@ fn classify(full: &str) -> String {
         "idnf".into()
     } else if msg.contains("import id or string") {
         "type".into()
+    } else if msg.contains("unable to perform operation") {
+        "arith".into()
     } else if msg.contains("callable function") {
         "call".into()
     } else if msg.contains("Key/Value pair to export") {
@@ -1051,6 +1147,133 @@ fn direct_laws(sc: &Scenario, outs: &[OpOut], open: &[String], attributed: &mut 
             }
         }
     }
+    // final values: the integer content of the host exports is re-computed from the host scripts alone
+    // (assignments, compound assignments incl. loops and conditionals, multi-assignments; everything
+    // else makes the touched keys unknown) and compared with exports() after every successful script
+    {
+        let mut exp: BTreeMap<Name, Option<i64>> = BTreeMap::new(); // None = unknown
+        let mut all_unknown = false;
+        for (i, o) in sc.ops.iter().enumerate() {
+            let Some(out) = outs.get(i) else { break };
+            if out.result != "ok" {
+                break; // a failed script stops somewhere in the middle
+            }
+            let et = o.export_top;
+            let mut loc: BTreeMap<Name, Option<i64>> = BTreeMap::new();
+            for t in &o.body {
+                let TAct::A(a) = t else {
+                    all_unknown = true; // functions may export anything
+                    continue;
+                };
+                let set = |k: Name, v: Option<i64>, local: bool, export: bool, loc: &mut BTreeMap<Name, Option<i64>>, exp: &mut BTreeMap<Name, Option<i64>>| {
+                    if local {
+                        loc.insert(k, v);
+                    }
+                    if export {
+                        exp.insert(k, v);
+                    }
+                };
+                match a {
+                    Act::Assign(k, v) => set(*k, Some(*v), true, et, &mut loc, &mut exp),
+                    Act::Export(k, v) => set(*k, Some(*v), true, true, &mut loc, &mut exp),
+                    Act::ExportId(k, _) => set(*k, None, true, true, &mut loc, &mut exp),
+                    Act::Cond(f, k, v) => {
+                        if *f == 1 {
+                            if !loc.contains_key(k) {
+                                loc.insert(*k, None);
+                            }
+                        } else {
+                            set(*k, Some(*v), true, et, &mut loc, &mut exp)
+                        }
+                    }
+                    Act::Cmp(k, op, r) | Act::Loop(_, k, op, r) => {
+                        if let Act::Loop(..) = a {
+                            // the loop variable is a local (null after the loop), exported like any top-level id
+                            loc.insert(89, None);
+                            if et {
+                                exp.insert(89, None);
+                            }
+                        }
+                        let n = if let Act::Loop(n, ..) = a { *n } else { 1 };
+                        for _ in 0..n {
+                            let cur = if loc.contains_key(k) { loc[k] } else { exp.get(k).copied().flatten() };
+                            let val = match (cur, r) {
+                                (Some(x), Rhs::Lit(b)) => Some(op.apply(x, *b)),
+                                _ => None,
+                            };
+                            let is_local = loc.contains_key(k);
+                            set(*k, val, is_local, et, &mut loc, &mut exp);
+                        }
+                    }
+                    Act::Pat(e, ts, rs) => {
+                        let export = *e || et;
+                        let multi = ts.len() > 1;
+                        for (idx, tg) in ts.iter().enumerate() {
+                            match tg {
+                                Target::Id(k) => {
+                                    let v = match rs.get(idx) {
+                                        Some(Rhs::Lit(v)) if multi || rs.len() == 1 => Some(*v),
+                                        _ => None,
+                                    };
+                                    set(*k, v, true, export, &mut loc, &mut exp);
+                                }
+                                Target::Ignored => {}
+                                Target::Map(es) => {
+                                    for en in es {
+                                        if let Some(k) = en.target {
+                                            set(k, None, true, export, &mut loc, &mut exp);
+                                        }
+                                    }
+                                }
+                            }
+                        }
+                    }
+                    Act::Import(items) | Act::From(_, items) => {
+                        for it in items {
+                            if let Some(tg) = it.target() {
+                                set(tg, None, true, et, &mut loc, &mut exp);
+                            }
+                            if et {
+                                exp.insert(it.name, None);
+                            }
+                        }
+                    }
+                    Act::FromAll(_) => {
+                        if et {
+                            all_unknown = true;
+                        }
+                    }
+                    Act::Print(_) | Act::Show(..) | Act::Try(..) | Act::Fail(_) => {}
+                }
+            }
+            if all_unknown {
+                for v in exp.values_mut() {
+                    *v = None;
+                }
+                all_unknown = false;
+                // keys exported by functions are not tracked: stop comparing for good
+                if o.body.iter().any(|t| !matches!(t, TAct::A(_))) || sc.ops[..=i].iter().any(|p| p.body.iter().any(|t| !matches!(t, TAct::A(_)))) {
+                    break;
+                }
+            }
+            let entries = top_level_entries(&out.exports);
+            for (k, v) in &exp {
+                if let Some(v) = v {
+                    let key = kvh::hex(name_str(*k).as_bytes());
+                    let want = format!("i{}", v);
+                    match entries.iter().find(|(kk, _)| *kk == key) {
+                        Some((_, got)) if *got == want => {}
+                        other => {
+                            return Some((
+                                "final-values".into(),
+                                format!("after operation {} exports[{}] is {:?}, the host scripts compute {}", i, name_str(*k), other.map(|x| x.1.clone()), want),
+                            ));
+                        }
+                    }
+                }
+            }
+        }
+    }
     // export_final / top_level_export_final / reassign_keeps_export, evaluated directly: after a
     // successful host script, `exports[k]` is the value of the last `export k = v` (or, with
     // export_top_level_ids, of the last `k = v` / `export k = v`) unless a later statement of the script
@@ -1109,6 +1332,7 @@ fn direct_laws(sc: &Scenario, outs: &[OpOut], open: &[String], attributed: &mut 
                 Act::Import(items) | Act::From(_, items) => o.export_top && items.iter().any(|it| it.name == k || it.as_ == Some(k)),
                 Act::FromAll(_) => o.export_top,
                 Act::Pat(e2, ts2, _) => (*e2 || o.export_top) && ts2.iter().flat_map(target_bound).any(|x| x == k),
+                Act::Cmp(k2, ..) | Act::Loop(_, k2, ..) | Act::Cond(_, k2, _) => o.export_top && *k2 == k,
                 _ => false,
             });
             if later_writes {
@@ -1198,6 +1422,9 @@ struct Gen<'a> {
     filter_f2: bool,
     /// locals of the current body that (probably) hold a module's exports map
     mod_bound: Vec<Name>,
+    /// ids that (probably) hold integers, and how many `^=` were generated (values must stay small)
+    int_bound: Vec<Name>,
+    pows: u32,
 }
 
 fn act_binds(a: &Act) -> Vec<Name> {
@@ -1205,6 +1432,7 @@ fn act_binds(a: &Act) -> Vec<Name> {
         Act::Export(k, _) | Act::Assign(k, _) | Act::ExportId(k, _) => vec![*k],
         Act::Import(items) | Act::From(_, items) => items.iter().filter_map(|i| i.target()).collect(),
         Act::Pat(_, ts, _) => ts.iter().flat_map(target_bound).collect(),
+        Act::Cond(_, k, _) => vec![*k],
         _ => vec![],
     }
 }
@@ -1218,7 +1446,39 @@ impl<'a> Gen<'a> {
     }
 
     fn key(&mut self, mods: &[Name]) -> Name {
-        if self.rng.chance(1, 8) && !mods.is_empty() { *self.rng.pick(mods) } else { *self.rng.pick(KEYS) }
+        if self.rng.chance(1, 8) {
+            // names that coincide with prelude entries (`size`, `type`, `copy`)
+            *self.rng.pick(&[90, 91, 92])
+        } else if self.rng.chance(1, 8) && !mods.is_empty() {
+            *self.rng.pick(mods)
+        } else {
+            *self.rng.pick(KEYS)
+        }
+    }
+
+    /// a compound assignment / loop / conditional assignment on an id that probably holds an integer
+    fn arith_act(&mut self, mods: &[Name]) -> Act {
+        let k = if !self.int_bound.is_empty() && self.rng.chance(5, 6) { *self.rng.pick(&self.int_bound.clone()) } else { self.key(mods) };
+        let (op, r) = match self.rng.weighted(&[4, 3, 2, 2, if self.pows < 2 { 1 } else { 0 }]) {
+            0 => (COp::Add, self.rng.range(-3, 9)),
+            1 => (COp::Sub, self.rng.range(-3, 9)),
+            2 => (COp::Mul, self.rng.range(-2, 3)),
+            3 => (COp::Rem, *self.rng.pick(&[2, 3, 5, -2])),
+            _ => {
+                self.pows += 1;
+                (COp::Pow, self.rng.range(0, 2))
+            }
+        };
+        let rhs = if matches!(op, COp::Add | COp::Sub) && !self.int_bound.is_empty() && self.rng.chance(1, 5) {
+            Rhs::Ref(*self.rng.pick(&self.int_bound.clone()))
+        } else {
+            Rhs::Lit(r)
+        };
+        match self.rng.weighted(&[6, 2, 3]) {
+            0 => Act::Cmp(k, op, rhs),
+            1 => Act::Loop(self.rng.below(4) as u32, k, if op == COp::Pow || op == COp::Mul { COp::Add } else { op }, rhs),
+            _ => Act::Cond(self.rng.below(3) as u32, k, self.rng.range(-3, 40)),
+        }
     }
 
     fn item(&mut self, pool: &[Name], allow_as: bool) -> Item {
@@ -1330,6 +1590,9 @@ impl<'a> Gen<'a> {
     fn simple_act(&mut self, mods: &[Name], targets: &[Name], fail_pct: u32, import_w: u32) -> Act {
         let a = self.simple_act0(mods, targets, fail_pct, import_w);
         self.bound.extend(act_binds(&a));
+        if let Act::Export(k, _) | Act::Assign(k, _) | Act::Cond(_, k, _) = &a {
+            self.int_bound.push(*k);
+        }
         if let Act::FromAll(_) = &a {
             // a wildcard import probably makes the usual export keys visible as non-locals
             self.visible.extend_from_slice(KEYS);
@@ -1347,6 +1610,9 @@ impl<'a> Gen<'a> {
         if self.rng.chance(1, 9) {
             let exp = self.rng.chance(3, 5);
             return self.pat_act(mods, targets, exp);
+        }
+        if self.rng.chance(1, 9) {
+            return self.arith_act(mods);
         }
         match self.rng.weighted(&[2, 4, 2, if nothing_known { 0 } else { 1 }, read_w, import_w, fail_pct]) {
             0 => Act::Print(self.mk()),
@@ -1427,13 +1693,18 @@ impl<'a> Gen<'a> {
         let mut b = vec![];
         self.bound.clear();
         self.mod_bound.clear();
+        // envelope: with export_top_level_ids a compound assignment to an id that is not a local of
+        // the script puts the id into the compiler's exported-id set, and a function created later in
+        // the same script captures such ids by value at creation (failing if they do not exist yet);
+        // the model captures locals only, so no function definitions after such a statement
+        let mut cmp_on_nonlocal = false;
         for _ in 0..n {
             if self.rng.chance(1, 14) && !self.mod_bound.is_empty() {
                 let m = *self.rng.pick(&self.mod_bound.clone());
                 b.push(TAct::CallM(m, *self.rng.pick(&[74, 75, 60])));
                 continue;
             }
-            if allow_defs && self.rng.chance(1, 40) {
+            if allow_defs && !cmp_on_nonlocal && self.rng.chance(1, 40) {
                 let mk = self.mk();
                 let body = self.fn_body(mods, targets, 1);
                 if self.rng.chance(1, 2) {
@@ -1454,6 +1725,14 @@ impl<'a> Gen<'a> {
                     }
                 }
                 let binds = act_binds(&a);
+                if let Act::Cmp(k, ..) | Act::Loop(_, k, ..) = &a {
+                    if export_top && !self.bound.contains(k) {
+                        cmp_on_nonlocal = true;
+                    }
+                }
+                if let Act::Export(k, _) | Act::Assign(k, _) | Act::Cond(_, k, _) = &a {
+                    self.int_bound.push(*k);
+                }
                 if let Act::FromAll(_) = &a {
                     self.visible.extend_from_slice(KEYS);
                 }
@@ -1477,6 +1756,8 @@ impl<'a> Gen<'a> {
     /// random file system + history
     fn random(&mut self) -> Scenario {
         self.marker = 0;
+        self.pows = 0;
+        self.int_bound.clear();
         let n_names = 2 + self.rng.below(4);
         let mods: Vec<Name> = (0..n_names as Name).collect();
         let fail_pct = *self.rng.pick(&[0u32, 1, 2, 3]);
@@ -1674,7 +1955,8 @@ fn wild_family(rng: &mut Rng) -> Scenario {
         mk += 1;
         mk
     };
-    let keys: [Name; 3] = [60, 61, 62];
+    // `size` (90) coincides with a prelude entry: exports / wildcard imports must win over the prelude
+    let keys: [Name; 4] = [60, 61, 62, 90];
     let mut files = vec![];
     for i in 0..3u32 {
         let mut b = vec![TAct::A(Act::Print(next()))];
@@ -1734,6 +2016,71 @@ fn wild_family(rng: &mut Rng) -> Scenario {
     Scenario { run_import_tests: rng.chance(2, 3), host_tests: false, prelude: vec![], files, ops, family: "wildcards".into(), flags: Flags::default() }
 }
 
+/// top-level-ids family (REPL mode): host scripts that assign, compound-assign (+= -= *= %= ^=, also in
+/// `for` loops), assign inside `if`/`match`, and multi-assign ids that were first assigned in the SAME
+/// script and in EARLIER scripts, mostly with export_top_level_ids; names include prelude names; after
+/// every script exports() is compared with the values the scripts compute ((D) final-values)
+fn toplevel_family(rng: &mut Rng) -> Scenario {
+    let mut mk = 0u32;
+    let mut next = || {
+        mk += 1;
+        mk
+    };
+    let ids: [Name; 6] = [60, 61, 62, 63, 90, 91];
+    let mut known: Vec<Name> = vec![]; // ids assigned by an earlier statement (any script)
+    let mut pows = 0;
+    let files = vec![FileDef { path: MPath { dir: vec![], name: 0, is_dir: false }, body: Some(vec![TAct::A(Act::Print(next())), TAct::A(Act::Export(60, 3)), TAct::A(Act::Export(90, 4))]) }];
+    let always = rng.chance(2, 3);
+    let mut ops = vec![];
+    for _ in 0..(2 + rng.below(4)) {
+        let et = always || rng.chance(1, 2);
+        let mut body = vec![];
+        for _ in 0..(2 + rng.below(5)) {
+            let fresh = known.is_empty() || rng.chance(1, 4);
+            if fresh {
+                let k = *rng.pick(&ids);
+                match rng.below(5) {
+                    0 => body.push(TAct::A(Act::Export(k, rng.range(0, 20)))),
+                    1 => body.push(TAct::A(Act::Cond(rng.below(3) as u32, k, rng.range(0, 20)))),
+                    2 => {
+                        let k2 = *rng.pick(&ids);
+                        body.push(TAct::A(Act::Pat(rng.chance(1, 3), vec![Target::Id(k), Target::Id(k2)], vec![Rhs::Lit(rng.range(0, 20)), Rhs::Lit(rng.range(0, 20))])));
+                        known.push(k2);
+                    }
+                    _ => body.push(TAct::A(Act::Assign(k, rng.range(0, 20)))),
+                }
+                known.push(k);
+            } else {
+                let k = *rng.pick(&known);
+                let (op, r) = match rng.weighted(&[4, 3, 2, 2, if pows < 2 { 1 } else { 0 }]) {
+                    0 => (COp::Add, rng.range(-3, 9)),
+                    1 => (COp::Sub, rng.range(-3, 9)),
+                    2 => (COp::Mul, rng.range(-2, 3)),
+                    3 => (COp::Rem, *rng.pick(&[2, 3, 5, -2])),
+                    _ => {
+                        pows += 1;
+                        (COp::Pow, rng.range(0, 2))
+                    }
+                };
+                let rhs = if matches!(op, COp::Add | COp::Sub) && rng.chance(1, 6) { Rhs::Ref(*rng.pick(&known)) } else { Rhs::Lit(r) };
+                if rng.chance(1, 4) && !matches!(op, COp::Mul | COp::Pow) {
+                    body.push(TAct::A(Act::Loop(rng.below(4) as u32, k, op, rhs)));
+                } else {
+                    body.push(TAct::A(Act::Cmp(k, op, rhs)));
+                }
+            }
+            if rng.chance(1, 5) {
+                body.push(TAct::A(Act::Show(next(), *rng.pick(&ids))));
+            }
+            if rng.chance(1, 12) {
+                body.push(TAct::A(Act::FromAll(0.into())));
+            }
+        }
+        ops.push(Op { dir: vec![], export_top: et, body });
+    }
+    Scenario { run_import_tests: false, host_tests: false, prelude: vec![], files, ops, family: "toplevel".into(), flags: Flags::default() }
+}
+
 /// exported functions called across modules: a library exports functions whose bodies export, read
 /// non-locals, import; they are called by the library itself, by an importing module and by host
 /// scripts (member call `m.f()`, after `from m import f`, through a wildcard import), also values that
@@ -1744,7 +2091,7 @@ fn functions_family(rng: &mut Rng) -> Scenario {
         mk += 1;
         mk
     };
-    let keys: [Name; 3] = [60, 61, 62];
+    let keys: [Name; 4] = [60, 61, 62, 91];
     let mut files = vec![];
     // m2: something to import from inside a function
     files.push(FileDef { path: MPath { dir: vec![], name: 2, is_dir: false }, body: Some(vec![TAct::A(Act::Print(next())), TAct::A(Act::Export(61, 7))]) });
@@ -2293,7 +2640,7 @@ fn main() {
     kvh::quiet_panics();
     let args = Args::parse();
     let mut rep = Report::new("C18", &args);
-    rep.rule = "case = scenario (settings + module files + history of host scripts run by one runtime); generated by seeded graph families (chain, diamond, cycles 1-3, failing top level/@test/@main, file and directory modules), a path-spelling family (one module reached from several folders as '../m', 'd/../m', './m', m; shadowing modules; dotted module names; string import items with/without `as`), an exported-functions family (functions that export / read non-locals / import, called by their own module, by importers and by host scripts), a wildcard-import family (overlapping export keys, import orders with repeats, closures created at different points), an exported-assignment family (every assignment-target shape allowed under export: ids, `_`, map patterns with plain/`as`/string-key/ignored entries, single and multi-target, export keyword and export_top_level_ids; observed via importer, wildcard import, host exports() and non-local reads in functions), a random file-system/history generator, a bounded-exhaustive sweep over all 3-module import graphs x failure placements, and the corpus; distinct = distinct request lines; non-trivial = at least one module file, one operation and two module statements".into();
+    rep.rule = "case = scenario (settings + module files + history of host scripts run by one runtime); generated by seeded graph families (chain, diamond, cycles 1-3, failing top level/@test/@main, file and directory modules), a path-spelling family (one module reached from several folders as '../m', 'd/../m', './m', m; shadowing modules; dotted module names; string import items with/without `as`), a top-level-ids family (REPL mode: assignments, compound assignments += -= *= %= ^= also in loops, assignments inside if/match, multi-assignments to ids first assigned in the same and in earlier scripts, names that coincide with prelude entries; exports() compared with the computed final values), an exported-functions family (functions that export / read non-locals / import, called by their own module, by importers and by host scripts), a wildcard-import family (overlapping export keys, import orders with repeats, closures created at different points), an exported-assignment family (every assignment-target shape allowed under export: ids, `_`, map patterns with plain/`as`/string-key/ignored entries, single and multi-target, export keyword and export_top_level_ids; observed via importer, wildcard import, host exports() and non-local reads in functions), a random file-system/history generator, a bounded-exhaustive sweep over all 3-module import graphs x failure placements, and the corpus; distinct = distinct request lines; non-trivial = at least one module file, one operation and two module statements".into();
     rep.max_samples = 6;
     let open: Vec<String> = rep.known_open().iter().filter_map(|e| e.get("id").and_then(|x| x.as_str()).map(|s| s.to_string())).collect();
     let drv = if args.driver.is_empty() { None } else { Some(Driver::spawn(&args.driver)) };
@@ -2415,6 +2762,11 @@ fn main() {
 
     // 3. graph families and random scenarios
     let (n_graph, n_random) = if thorough { (12000, 40000) } else { (1200, 3000) };
+    let n_top = if thorough { 8000 } else { 800 };
+    for _ in 0..n_top {
+        let sc = toplevel_family(&mut rng);
+        cx.one(&sc);
+    }
     let n_fn = if thorough { 6000 } else { 600 };
     for _ in 0..n_fn {
         let sc = functions_family(&mut rng);
@@ -2436,11 +2788,11 @@ fn main() {
         cx.one(&sc);
     }
     for _ in 0..n_graph {
-        let sc = Gen { rng: &mut rng, marker: 0, bound: vec![], visible: vec![], filter_f2, mod_bound: vec![] }.graph();
+        let sc = Gen { rng: &mut rng, marker: 0, bound: vec![], visible: vec![], filter_f2, mod_bound: vec![], int_bound: vec![], pows: 0 }.graph();
         cx.one(&sc);
     }
     for _ in 0..n_random {
-        let sc = Gen { rng: &mut rng, marker: 0, bound: vec![], visible: vec![], filter_f2, mod_bound: vec![] }.random();
+        let sc = Gen { rng: &mut rng, marker: 0, bound: vec![], visible: vec![], filter_f2, mod_bound: vec![], int_bound: vec![], pows: 0 }.random();
         cx.one(&sc);
     }
 
